@@ -43,6 +43,8 @@ def run(ctx: Ctx) -> None:
         for n in ast.walk(f.node):
             if isinstance(n, ast.Assign) and any(isinstance(t, ast.Subscript) and ast.unparse(t.value).endswith(FIELD) for t in n.targets) and "weakref" in ast.unparse(n.value):
                 weak_stores.append(f"{f.qualname}:{n.lineno}")
+    # only weak containers are wrong; any other way of building the mapping (dict, lambda: {}, OrderedDict …) is fine
+    strong = strong or not weak
     ctx.check(strong and not weak and not weak_stores, "R-C22.5", key, f"{st.module.rel}:{decl.lineno}",
               {"declaration": text[:140], "default_factory": factory, "weak_reference_stores": weak_stores},
               "leaked non-droppable values are referenced only by this registry once the traced function has returned: held weakly, they are "
